@@ -255,43 +255,49 @@ func prefixComplete(toks []sqlgen.Tok) bool {
 
 func TestRecoveryScript(t *testing.T) {
 	hx.Rule("recovery_script", "scripts S1;...;Sn (n<=6) of flat G-SQL statements (no statement-starting keyword after the first token), each kept or corrupted (delete/duplicate/swap/replace/insert/truncate); each Si is classified by gosqlx.Parse alone; recovery parsing must return exactly the trees of the well-formed ones in order, one error per malformed one, each naming a token of its own segment and, where it carries a line/column, located inside its own segment's text; non-trivial = a malformed segment that is neither first nor last, or two adjacent malformed segments; distinct = verdict vector + corruption kinds + sizes")
-	scriptCheck.Rapid(t, hx.N(100000, 1000000), func(rt *rapid.T) ScriptCase {
-		n := rapid.IntRange(1, 6).Draw(rt, "nseg")
-		var c ScriptCase
-		var vec []string
-		for i := 0; i < n; i++ {
-			f := sqlgen.AllFeatures()
-			f.Flat = true
-			f.MaxDepth = 2
-			f.NoGroupingOps = true // "GROUPING SETS" stays one parser token: token indices would not line up with generated ones
-			g := sqlgen.New(rt, f)
-			toks := sqlgen.Statement(g).Toks
-			if !flatOK(toks) {
-				toks = []sqlgen.Tok{{Text: "SELECT", KW: true}, {Text: "a"}, {Text: "FROM", KW: true}, {Text: "t1"}}
-			}
-			bad := false
-			kind := "ok"
-			if rapid.IntRange(0, 9).Draw(rt, "corruptseg") >= 6 && len(toks) >= 2 {
-				r := corrupt.Apply(rt, toks)
-				if flatOK(r.Toks) {
-					if !hx.Allowed("c12.prefix_is_complete_statement") && prefixComplete(r.Toks) {
-						// listed finding: steer around corruptions that leave a complete statement as a proper prefix
-					} else {
-						toks, bad, kind = r.Toks, true, r.Kind
-					}
+	scriptCheck.Rapid(t, hx.N(100000, 1000000), genRecoveryScript)
+}
+
+// genRecoveryScript is the case generator of scriptCheck (shared by the rapid run and the native fuzz target).
+func genRecoveryScript(rt *rapid.T) ScriptCase {
+	n := rapid.IntRange(1, 6).Draw(rt, "nseg")
+	var c ScriptCase
+	var vec []string
+	for i := 0; i < n; i++ {
+		f := sqlgen.AllFeatures()
+		f.Flat = true
+		f.MaxDepth = 2
+		f.NoGroupingOps = true // "GROUPING SETS" stays one parser token: token indices would not line up with generated ones
+		g := sqlgen.New(rt, f)
+		toks := sqlgen.Statement(g).Toks
+		if !flatOK(toks) {
+			toks = []sqlgen.Tok{{Text: "SELECT", KW: true}, {Text: "a"}, {Text: "FROM", KW: true}, {Text: "t1"}}
+		}
+		bad := false
+		kind := "ok"
+		if rapid.IntRange(0, 9).Draw(rt, "corruptseg") >= 6 && len(toks) >= 2 {
+			r := corrupt.Apply(rt, toks)
+			if flatOK(r.Toks) {
+				if !hx.Allowed("c12.prefix_is_complete_statement") && prefixComplete(r.Toks) {
+					// listed finding: steer around corruptions that leave a complete statement as a proper prefix
+				} else {
+					toks, bad, kind = r.Toks, true, r.Kind
 				}
 			}
-			c.Segments = append(c.Segments, Segment{SQL: sqlgen.SQL(toks), NToks: len(toks), Bad: bad})
-			vec = append(vec, kind)
 		}
-		nt := false
-		for i := range c.Segments {
-			if c.Segments[i].Bad && ((i > 0 && i < n-1) || (i > 0 && c.Segments[i-1].Bad)) {
-				nt = true
-			}
+		c.Segments = append(c.Segments, Segment{SQL: sqlgen.SQL(toks), NToks: len(toks), Bad: bad})
+		vec = append(vec, kind)
+	}
+	nt := false
+	for i := range c.Segments {
+		if c.Segments[i].Bad && ((i > 0 && i < n-1) || (i > 0 && c.Segments[i-1].Bad)) {
+			nt = true
 		}
-		hx.Case("recovery_script", nt, strings.Join(vec, ",")+fmt.Sprint(len(c.text())/16))
-		hx.Sample("recovery_script", c.text())
-		return c
-	})
+	}
+	hx.Case("recovery_script", nt, strings.Join(vec, ",")+fmt.Sprint(len(c.text())/16))
+	hx.Sample("recovery_script", c.text())
+	return c
 }
+
+// FuzzRecoveryScript: coverage-guided search over the same generator (thorough tier).
+func FuzzRecoveryScript(f *testing.F) { scriptCheck.Fuzz(f, genRecoveryScript) }
